@@ -19,7 +19,7 @@ Dur0 == MinDur
 
 Deal(c, p, st, dur, price, pcol, ccol, uid) ==
   [c |-> c, p |-> p, start |-> st, end |-> st + dur, price |-> price, pcol |-> pcol, ccol |-> ccol, uid |-> uid]
-GoodDeals == {Deal("c1", "m1", Start0, Dur0, 1, 3, 5, u) : u \in {1, 2}}
+GoodDeals == {Deal("c1", "m1", Start0, Dur0, 1, 3, 5, 1), Deal("c1", "m1", Start0, Dur0 + 7, 1, 3, 5, 2)}
              \cup (IF Rich THEN {Deal(c, "m1", st, Dur0 + x, pr, 3, 5, 1) :
                                    c \in Clients, st \in {Start0, Start0 + Interval}, x \in {0, 7}, pr \in {0, 2}}
                    ELSE {})
@@ -35,7 +35,7 @@ Batches == {<<x>> : x \in Entries}
                             y \in (IF Rich THEN Entries ELSE {e \in Entries : e.d \in GoodDeals \/ e.d.c = "c2" \/ ~e.sigOK})}
 
 Ids == 0..(MaxDeals - 1)
-IdSeqs == {<<i>> : i \in Ids} \cup {<<i, j>> : i, j \in Ids} \cup (IF Rich THEN {<<0, 1, 0>>} ELSE {})
+IdSeqs == {<<i>> : i \in Ids} \cup {<<i, j>> : i, j \in Ids} \cup (IF MaxDeals > 1 THEN {<<0, 1, 0>>} ELSE {})
 IncSeqs == {<<i>> : i \in Ids} \cup {<<p[1], p[2]>> : p \in {q \in Ids \X Ids : q[1] < q[2]}}    \* a bitfield on the wire
 BigExp == Start0 + 2 * MaxDur
 SectorGroups ==
